@@ -296,6 +296,38 @@ def run_hist(ctx, spec):
     for g in goals:
         r = run(g)
         ctx.count('hist_phase1_' + r[0])
+    # phase 1b: the same sub-terms normalised WITH a premise and then WITHOUT one (and the other way round): a
+    # result obtained under a premise must not be served to a premise-free call
+    from kernel.thm import Thm
+    from kernel.term import Var
+    context.set_context('realintegral', vars={'x': 'real', 'y': 'real'})
+    cond_texts = ["x > 0", "x >= 0", "y > 0"]
+    t_texts = ["x ^ (1 / 2) * x ^ (1 / 2)", "sqrt x * sqrt x", "x ^ (3 / 2) * x ^ (1 / 2)", "abs x", "sqrt (x ^ (2::nat))",
+               "x ^ (1 / 3) * x ^ (2 / 3)", "y ^ (1 / 2) * y ^ (1 / 2)", "log (exp x)", "x / x"]
+    def P(txt):
+        with contextlib.redirect_stdout(io.StringIO()):
+            return parser.parse_term(txt)
+    for tt in t_texts:
+        try:
+            t = P(tt)
+        except Exception:
+            ctx.count('hist_goal_parse_error')
+            continue
+        from kernel.term import Eq, Real
+        seqs = []
+        for order in (('free', 'cond', 'free'), ('cond', 'free', 'cond')):
+            for kind in order:
+                goal = rng.choice([Eq(t + Real(0), t), Eq(t, t), Eq(t * Real(1), t), Eq(t + Real(0), P("x")), Eq(t, P("x"))])
+                prem = []
+                if kind == 'cond':
+                    c = P(rng.choice(cond_texts))
+                    prem = [Thm(c, c)]
+                try:
+                    macro.eval(goal, prem)
+                    ctx.count('hist_premise_calls_ok:' + kind)
+                except Exception as e:
+                    ctx.count('hist_premise_calls_rejected:' + kind)
+                ctx.case(('hist-premise', kind, key_of(goal)), nontrivial=True)
     ctx.count('hist_norm_record_entries', len(auto.norm_record))
     ctx.count('hist_solve_record_entries', len(auto.solve_record))
     # phase 2: an earlier theory, memo as found vs empty memo
